@@ -18,8 +18,24 @@ THEOREMS = [
     "C12.scale_root_fixed", "C12.rotate_root_fixed", "C12.rotate_axis_isometry", "C12.rotate_axis_isometry_origin",
     "C12.rotate_axis_right_handed", "C12.rodrigues_apply", "C12.rodrigues_fixes_axis", "C12.rodrigues_isometry",
     "C12.rodrigues_z", "C12.inverse_restores", "C12.default_centres",
+    # the control flow of the transform classes as translated (Gen/AlgoAffine.lean): refinement against Gen/Matrices.lean ...
+    "RefineAffine.translate3d_refines", "RefineAffine.scale3d_refines", "RefineAffine.rotate3d_x_refines", "RefineAffine.rotate3d_y_refines",
+    "RefineAffine.rotate3d_z_refines", "RefineAffine.dot2_eq_mmul", "RefineAffine.xyz_refines", "RefineAffine.xyzw_refines",
+    "RefineAffine.apply_refines", "RefineAffine.root_index", "RefineAffine.call_origin", "RefineAffine.call_root",
+    "RefineAffine.call_root_refines", "RefineAffine.call_origin_refines", "RefineAffine.call_affine", "RefineAffine.translate_origin_refines",
+    "RefineAffine.affine_init_eq", "RefineAffine.translate_init_default", "RefineAffine.translate_init_center", "RefineAffine.scale_init_eq",
+    "RefineAffine.rotate_x_init_eq", "RefineAffine.rotate_y_init_eq", "RefineAffine.rotate_z_init_eq", "RefineAffine.rotate_init_eq",
+    "RefineAffine.transforms_call_refines",
+    # ... and the C12 theorems transported to the generated classes on whole trees
+    "C12.callFn_affine", "C12.generated_translate_moves", "C12.generated_translate_origin", "C12.generated_scale",
+    "C12.generated_scale_root_fixed", "C12.generated_rotate_axis", "C12.generated_rotate", "C12.rotMap_axis_rigid",
+    "C12.rotMap_rodrigues_rigid", "C12.generated_pipeline", "C12.generated_two_steps", "C12.generated_inverse_restores",
 ]
-TRUSTED = ["translator harness/translate.py (Gen/Matrices.lean regenerated from utils/transforms.py and transforms/geometry.py on every run; "
+TRUSTED = ["imperative translator harness/translate_algo.py + algo_specs/18_affine.py (Gen/AlgoAffine.lean regenerated from transforms/geometry.py, utils/transforms.py, "
+           "core/swc.py::xyz/xyzw, transforms/base.py::Transforms.__call__ on every run; its trusted glue is listed in the header of 18_affine.py: a tree is its seven "
+           "columns, `y = x.copy()` copies them, `np.cos/np.sin(theta)` are parameters, `rotate3d(n, theta)` is a parameter instantiated with Gen.Mat.rotate3d; "
+           "cross-checked by running the generated classes on whole trees: driver ops gaffine / gpipe)",
+           "translator harness/translate.py (Gen/Matrices.lean regenerated from utils/transforms.py and transforms/geometry.py on every run; "
            "cross-checked by evaluating the generated matrices at Float against the Python functions)"]
 ASSUMPTIONS = [
     "numpy dot/transpose/division semantics of AffineTransform.apply (recognised verbatim by the translator, modelled as mapply)",
